@@ -13,7 +13,7 @@ if ! (cd $R && patch -p1 -s --no-backup-if-mismatch < $V/seeded/$SID/patch.diff 
 fi
 for P in "$@"; do
   TIER=${TIER:-quick}
-  VERIF_REPO=$R VERIF_EVIDENCE_DIR=/tmp/seed_eval/$SID/evidence VERIF_REPLAYS_DIR=/tmp/seed_eval/$SID/replays timeout 7200 python3 $V/verif.py check $P --tier $TIER > /tmp/seed_eval/$SID/$P.log 2>&1
+  VERIF_MAX_PLAYBACK=1 VERIF_REPO=$R VERIF_EVIDENCE_DIR=/tmp/seed_eval/$SID/evidence VERIF_REPLAYS_DIR=/tmp/seed_eval/$SID/replays timeout 7200 python3 $V/verif.py check $P --tier $TIER > /tmp/seed_eval/$SID/$P.log 2>&1
   rc=$?
   echo "$SID $P exit=$rc $(grep -h '^VIOLATION' /tmp/seed_eval/$SID/$P.log | sed 's/replay=[^ ]*//' | sort | uniq -c | tr '\n' ';') $(grep -h 'failed obligation' /tmp/seed_eval/$SID/$P.log | sed 's/ ; native replay.*//' | head -3 | tr '\n' ';')"
 done
